@@ -487,7 +487,10 @@ impl St {
                 let msg = if act == "Peer" {
                     Ok(format!("r{}.{}", id, n))
                 } else {
-                    Err(ServerError::new(std::io::ErrorKind::Other, format!("e{}.{}", id, n)))
+                    // the kind of a server error is the application's business: whatever it is, the call fails with that error
+                    let kinds = [std::io::ErrorKind::Other, std::io::ErrorKind::TimedOut, std::io::ErrorKind::WouldBlock,
+                                 std::io::ErrorKind::ConnectionReset, std::io::ErrorKind::NotFound];
+                    Err(ServerError::new(kinds[(n as usize) % kinds.len()], format!("e{}.{}", id, n)))
                 };
                 let r = Response {
                     request_id: id,
